@@ -518,11 +518,47 @@ def check_nest_intersection():
         raise U('NestsForNestedLogit.check_partition: does not return valid_union and valid_intersection')
 
 
+def shape_draw_types():
+    """IdManager.prepare: after the draws of ALL the formulas have been merged (expr = dict(expr, **d) in the loop, then
+    self.draws = expressions_names_indices(expr)), every formula is checked against the merged declarations:
+        for f in self.expressions: self._check_types_of_draws(f, expr)          -> ScopeAll
+    (a call self._check_types_of_draws(f, d) inside the merging loop = each formula against its own draws -> ScopeOwn)"""
+    what = 'IdManager.prepare (types of draws)'
+    fn = find_method(SRC / 'expressions' / 'idmanager.py', 'IdManager', 'prepare')
+    body = strip_doc(fn.body)
+    srcs = [ast.unparse(st) for st in body]
+    try:
+        i = srcs.index('self.draws = expressions_names_indices(expr)')
+    except ValueError:
+        raise U(f'{what}: `self.draws = expressions_names_indices(expr)` not found')
+    loop = body[i - 1]
+    want_loop = ['d = f.dict_of_elementary_expression(the_type=TypeOfElementaryExpression.DRAWS)', 'expr = dict(expr, **d)']
+    if not (isinstance(loop, ast.For) and ast.unparse(loop.target) == 'f' and ast.unparse(loop.iter) == 'self.expressions'
+            and srcs[i - 2] == 'expr = {}'):
+        raise U(f'{what}: the loop merging the draws of the formulas is not recognised')
+    inner = [ast.unparse(st) for st in loop.body]
+    calls = [k for k, st in enumerate(body) if '_check_types_of_draws' in srcs[k]]
+    chk = find_method(SRC / 'expressions' / 'idmanager.py', 'IdManager', '_check_types_of_draws')
+    plain_args(chk, ['self', 'expression', 'declared'])
+    csrc = ast.unparse(chk)
+    for need in ("draw_type = getattr(expression, 'drawType', None)", "name = getattr(expression, 'name', None)",
+                 'expected_type = declared[name].drawType', 'draw_type != expected_type', 'raise BiogemeError(',
+                 'children = expression.get_children()', 'self._check_types_of_draws(child, declared)'):
+        if need not in csrc:
+            raise U(f'IdManager._check_types_of_draws: `{need}` not found')
+    if inner == want_loop and calls == [i + 1] and isinstance(body[i + 1], ast.For) \
+            and srcs[i + 1] == 'for f in self.expressions:\n    self._check_types_of_draws(f, expr)':
+        return 'ScopeAll'
+    if calls == [i - 1] and inner == [want_loop[0], 'self._check_types_of_draws(f, d)', want_loop[1]]:
+        return 'ScopeOwn'
+    raise U(f'{what}: the check of the types of the draws is not recognised')
+
+
 def entry_rules():
     acc = shape_biogeme_audit()
     check_database_audit()
     check_nest_intersection()
-    return {'biogeme_audit': acc}
+    return {'biogeme_audit': acc, 'draw_scope': shape_draw_types()}
 
 
 # ------------------------------------------------------------------------------------ the table
@@ -617,4 +653,7 @@ def emit(table, rules=None):
     out.append('(* BIOGEME._audit: the error lists of all the formulas of the specification are accumulated (AccAll),\n'
                '   or only the list of the last formula survives (AccLast) *)\n'
                f'Definition gen_biogeme_acc : accmode := {rules["biogeme_audit"]}.')
+    out.append('(* IdManager.prepare: each formula is checked against the draw declarations of all the formulas of the manager\n'
+               '   (ScopeAll) or against its own only (ScopeOwn) *)\n'
+               f'Definition gen_draw_scope : dscope := {rules["draw_scope"]}.')
     return '\n\n'.join(out) + '\n'
